@@ -83,11 +83,13 @@ type ibtpScenario struct {
 	rcpAcc []uint64
 	txs    map[string]*ibtpTxModel
 	cur    []*ibtpOp
-	blocks []*ibtpBlock
-	ops    []string
-	prop   string
-	audit  bool
-	router interface {
+	// lastEmpty: the last sealed block had no transactions
+	lastEmpty bool
+	blocks    []*ibtpBlock
+	ops       []string
+	prop      string
+	audit     bool
+	router    interface {
 		GetInterchainTxWrappers(appchainID string, begin, end uint64, ch chan<- *pb.InterchainTxWrappers) error
 	}
 	reqAccBefore, rcpAccBefore []uint64
